@@ -23,8 +23,14 @@ structure NackBuf where
 
 def NackBuf.new (maxSize : Nat) : NackBuf := ⟨max maxSize 1, [], [], []⟩
 
-def mapGet (m : List (UInt16 × Nat)) (s : UInt16) : Option Nat := (m.find? (·.1 == s)).map (·.2)
-def mapErase (m : List (UInt16 × Nat)) (s : UInt16) : List (UInt16 × Nat) := m.filter (·.1 != s)
+def mapGet : List (UInt16 × Nat) → UInt16 → Option Nat
+  | [], _ => none
+  | (k, v) :: m, s => if k = s then some v else mapGet m s
+
+def mapErase : List (UInt16 × Nat) → UInt16 → List (UInt16 × Nat)
+  | [], _ => []
+  | (k, v) :: m, s => if k = s then mapErase m s else (k, v) :: mapErase m s
+
 def mapSet (m : List (UInt16 × Nat)) (s : UInt16) (v : Nat) : List (UInt16 × Nat) := (s, v) :: mapErase m s
 
 /-- `while self.order.len() > max_size { pop_front; remove }` -/
@@ -75,6 +81,11 @@ def NackBuf.step (b : NackBuf) : BufOp → NackBuf × BufOut
   | .query now seqs =>
     let r := selectLoop b.packets now seqs [] b.recent []
     ({ b with recent := r.2 }, .got r.1)
+
+/-- state after a sequence of operations -/
+def bufFinal (b : NackBuf) : List BufOp → NackBuf
+  | [] => b
+  | o :: os => bufFinal (b.step o).1 os
 
 def bufRun (b : NackBuf) : List BufOp → List BufOut
   | [] => []
